@@ -465,10 +465,25 @@ type raceReport struct {
 	Run  string // "idx seed variant" of the run during which it was printed
 }
 
+func runWorkerGMP(bin string, job Job, gmp string) *workerOut {
+	return runWorkerEnv(bin, job, 600*time.Second, gmp)
+}
+
 func runWorker(bin string, job Job, watchdog time.Duration) *workerOut {
+	return runWorkerEnv(bin, job, watchdog, "")
+}
+
+func runWorkerEnv(bin string, job Job, watchdog time.Duration, gmpOverride string) *workerOut {
 	js, _ := json.Marshal(job)
 	cmd := exec.Command(bin, "-test.run", "^TestWorker$", "-test.timeout", "0", "-test.count", "1")
-	cmd.Env = append(os.Environ(), "VSIM_JOB="+string(js), "GORACE=halt_on_error=0 history_size=2", "GOMAXPROCS=4")
+	gmp := "4"
+	if v := os.Getenv("VSIM_GOMAXPROCS"); v != "" {
+		gmp = v
+	}
+	if gmpOverride != "" {
+		gmp = gmpOverride
+	}
+	cmd.Env = append(os.Environ(), "VSIM_JOB="+string(js), "GORACE=halt_on_error=0 history_size=2", "GOMAXPROCS="+gmp)
 	stdout, _ := cmd.StdoutPipe()
 	var stderr activityBuffer
 	cmd.Stderr = &stderr
